@@ -20,6 +20,9 @@ GROUPS.append({"name": "hash_bignum", "label": "bounded", "harness": "harness/C1
                "bound": "an L-word bignum against the same value stored in L+1 words (spare high zero word), L = 1, 2, 3; words and sign symbolic",
                "assumptions": ["discharged by the z3 4.8.12 SMT back end (MiniSat does not finish the relational query over two FNV-1 chains)"],
                "instances": [{"name": "l%d_vs_l%d" % (l, l + 1), "defs": {"LW": l}} for l in (1, 2, 3)]})
+GROUPS.append(dict(GROUPS[-1], name="hash_string", entry="h_string_coherent", functions=["lib/srfi/69/hash.c:hash_one(string / bytes arms)", "lib/srfi/69/hash.c:sexp_string_hash", "lib/srfi/69/hash.c:sexp_string_ci_hash", "sexp.c:sexp_equalp_bound(strings)"],
+                   bound="two-character ASCII strings (characters symbolic): a view at offset 1 into a 4-byte store against a 2-byte store at offset 0",
+                   unwindset="hash_one.0:60,hash_one.1:60,hash_one.2:4,hash_one:3,sexp_equalp_bound:3,string_hash.0:8,string_ci_hash.0:8", instances=[{"name": "view_vs_copy", "defs": {"LW": 1}}]))
 import os
 from vlib import core
 from groups import C16 as c16, C01 as c01
